@@ -1436,7 +1436,8 @@ fn corpus(ctx: &mut Ctx) {
         cat(&[b"TBI\x01".to_vec(), le32(0), hdr(2, 1, 2, 0, 35, 0x8000_0000, b"")]),
         cat(&[b"TBI\x01".to_vec(), le32(0), hdr(2, 1, 2, 0, 35, 0, b"sq0\0sq0\0")]),
         cat(&[b"TBI\x01".to_vec(), le32(0), hdr(2, 1, 2, 0, 35, 0, b"sq0\0sq1")]),
-        // l_nm larger than what is left: the names are whatever is there
+        // l_nm larger than what is left: the names `Take` is not used up — `UnexpectedEof` since /repo fix
+        // 125ecd7, `InvalidData` out of `read_index` (before: the names that were there)
         cat(&[b"TBI\x01".to_vec(), le32(0), le32(2), le32(1), le32(2), le32(0), le32(35), le32(0), le32(100), b"sq0\0".to_vec()]),
         cat(&[b"TBI\x01".to_vec(), le32(0xFFFF_FFFF), hdr(2, 1, 2, 0, 35, 0, b"")]),
         // one reference: bin, metadata, interval
@@ -1456,8 +1457,13 @@ fn corpus(ctx: &mut Ctx) {
         cat(&[csi_hdr(256, 5, vec![]), le32(0)]),
         cat(&[csi_hdr(14, 0xFFFF_FFFF, vec![]), le32(0)]),
         cat(&[csi_hdr(14, 5, hdr(2, 1, 2, 0, 35, 0, b"sq0\0")), le32(0)]),
-        // aux longer than the header in it: the extra bytes are NOT skipped (read as n_ref)
+        // aux longer than the header in it: the extra bytes are skipped since /repo fix 8288cb5 (before: read
+        // as n_ref); 4 bytes of padding, 3 bytes of padding that are not zero, padding cut short by the end
         cat(&[b"CSI\x01".to_vec(), le32(14), le32(5), le32(36), hdr(2, 1, 2, 0, 35, 0, b"sq0\0"), le32(0), le32(0)]),
+        cat(&[b"CSI\x01".to_vec(), le32(14), le32(5), le32(35), hdr(2, 1, 2, 0, 35, 0, b"sq0\0"), vec![7, 7, 7], le32(0), le64(5)]),
+        cat(&[b"CSI\x01".to_vec(), le32(14), le32(5), le32(40), hdr(2, 1, 2, 0, 35, 0, b"sq0\0"), le32(0)]),
+        // l_nm reaches beyond l_aux: the names `Take` is cut short by the aux `Take` (fix 125ecd7: an error)
+        cat(&[b"CSI\x01".to_vec(), le32(14), le32(5), le32(30), le32(2), le32(1), le32(2), le32(0), le32(35), le32(0), le32(4), b"a\0b\0".to_vec(), le32(0)]),
         // aux shorter than a header
         cat(&[b"CSI\x01".to_vec(), le32(14), le32(5), le32(8), le32(2), le32(1), le32(0)]),
         // the F4 layout: a leaf and its parent; metadata; depth 5 and depth 1 pseudo-bin ids
